@@ -4,3 +4,8 @@ SPAKE2_A, SPAKE2_B, SPAKE2_Symmetric, SPAKEError # hush pyflakes
 
 from . import _version
 __version__ = _version.get_versions()['version']
+
+import os as _os
+if _os.environ.get("WARNER_PYTHON_SPAKE2_VERIF") and _os.environ.get("WARNER_PYTHON_SPAKE2_VERIF_TRACE"):
+    from . import _verif_hooks  # verification hooks: record public-API calls (no behaviour change)
+    _verif_hooks # hush pyflakes
